@@ -17,8 +17,14 @@ from allmydata.util.spans import Spans, DataSpans
 from .. import common
 
 LEVEL = "model_checking"
+BASE = [0]      # the whole universe is also explored shifted by 1000 (fresh, non-interned int objects)
+
+
+def B(x):
+    return BASE[0] + x          # a NEW int object whenever the result is > 256
+
 ASSUMPTIONS = [
-    "universe 0..7 (Spans) / 0..5 with 2 byte values (DataSpans): the code only compares and subtracts offsets, no magnitude-dependent branch (by inspection)",
+    "universe 0..7 (Spans) / 0..5 with 2 byte values (DataSpans), explored once at offsets 0.. and once shifted by 1000 with freshly computed (non-interned) int objects, so that neither small-int identity nor a magnitude-dependent slip can hide; beyond that the code only compares and subtracts offsets",
     "zero-length add/get are outside the API contract (asserted against by Spans.add) and are not issued",
 ]
 
@@ -36,13 +42,13 @@ def spans_ops(U):
 def spans_build(hist):
     sp, ref = Spans(), set()
     for (op, s, l) in hist:
-        r = getattr(sp, op)(s, l)
+        r = getattr(sp, op)(B(s), l)
         if r is not sp:
             raise AssertionError("Spans.%s does not return self" % op)
         if op == "add":
-            ref |= set(range(s, s + l))
+            ref |= set(range(B(s), B(s) + l))
         else:
-            ref -= set(range(s, s + l))
+            ref -= set(range(B(s), B(s) + l))
     return sp, ref
 
 
@@ -68,9 +74,9 @@ def spans_check(sp, ref, U):
         bad.append("iter")
     for s in range(U):
         for l in range(1, U - s + 2):
-            want = set(range(s, s + l)) <= ref
-            if ((s, l) in sp) != want:
-                bad.append("(%d,%d) in -> %r want %r" % (s, l, (s, l) in sp, want))
+            want = set(range(B(s), B(s) + l)) <= ref
+            if ((B(s), l) in sp) != want:
+                bad.append("(%d,%d) in -> %r want %r" % (B(s), l, (B(s), l) in sp, want))
     return bad
 
 
@@ -92,7 +98,7 @@ def spans_closure(U, res):
                     bad = ["exception %r" % (e,)]
                     sp = None
                 if bad:
-                    res.violation("spans:" + bad[0].split()[0], {"kind": "Spans", "history": h2}, "; ".join(bad[:3]))
+                    res.violation("spans:" + bad[0].split()[0], {"kind": "Spans", "history": h2, "base": BASE[0]}, "; ".join(bad[:3]))
                     continue
                 c2 = tuple(sp._spans)
                 if c2 not in seen:
@@ -141,6 +147,7 @@ def ds_ops(D, maxlen):
 def ds_apply(ds, ref, op):
     """apply op to real object and reference; return list of problems for the result"""
     name, s, x = op
+    s = B(s)
     bad = []
     if name == "add":
         ds.add(s, x)
@@ -191,10 +198,11 @@ def ds_check(ds, ref, D):
         bad.append("get_spans")
     if list(ds._dump()) != sorted(ref):
         bad.append("_dump")
-    for s in range(D):
-        for l in range(1, D - s + 2):
+    for s0 in range(D):
+        s = B(s0)
+        for l in range(1, D - s0 + 2):
             want = b"".join(ref[i] for i in range(s, s + l)) if all(i in ref for i in range(s, s + l)) else None
-            g = ds.get(s, l)
+            g = ds.get(B(s0), l)
             if g != want:
                 bad.append("get(%d,%d)=%r want %r" % (s, l, g, want))
     c = DataSpans(ds)
@@ -220,7 +228,7 @@ def ds_closure(D, maxlen, res):
                 except Exception as e:  # noqa
                     bad = ["exception %r" % (e,)]
                 if bad:
-                    res.violation("dataspans:" + bad[0].split("(")[0].split()[0], {"kind": "DataSpans", "history": h2}, "; ".join(bad[:3]))
+                    res.violation("dataspans:" + bad[0].split("(")[0].split()[0], {"kind": "DataSpans", "history": h2, "base": BASE[0]}, "; ".join(bad[:3]))
                     continue
                 c2 = tuple(ds.spans)
                 if c2 not in seen:
@@ -231,6 +239,7 @@ def ds_closure(D, maxlen, res):
 
 
 def replay(case):
+    BASE[0] = case.get("base", 0)
     k = case["kind"]
     if k == "Spans":
         try:
@@ -252,13 +261,20 @@ def replay(case):
 
 def _closure_job(chunk):
     res = common.Result()
-    for (kind, U, maxlen) in chunk:
+    for (kind, U, maxlen, base) in chunk:
+        BASE[0] = base
+        if kind == "spans" and base:
+            seen = spans_closure(U, res)
+            res.count("shifted_spans_states", len(seen))
+            continue
         if kind == "spans":
             seen = spans_closure(U, res)
             res.notes["spans_hists"] = [seen[k] for k in sorted(seen)]
         else:
             seen = ds_closure(U, maxlen, res)
-            res.count("ds_states", len(seen))
+            res.count("ds_states" if not base else "shifted_ds_states", len(seen))
+            if base:
+                continue
             res.sample({"DataSpans_state": sorted(seen)[len(seen) // 2], "shortest_history": seen[sorted(seen)[len(seen) // 2]]})
     return res
 
@@ -266,13 +282,14 @@ def _closure_job(chunk):
 def run(tier, seed):
     U = 8 if tier == "quick" else 9
     D, maxlen = (6, 3) if tier == "quick" else (7, 4)
-    res = common.pmap(_closure_job, [("spans", U, 0), ("ds", D, maxlen)], chunks=2)
+    res = common.pmap(_closure_job, [("spans", U, 0, 0), ("ds", D, maxlen, 0), ("spans", U, 0, 1000), ("ds", D, maxlen, 1000)], chunks=4)
+    BASE[0] = 0
     hists = res.notes.pop("spans_hists")
     n = len(hists)
     res.sample({"Spans_state_history": hists[n // 2]})
     pairs = [(i, j) for i in range(n) for j in range(n)]
     res.merge(common.pmap(spans_binary_chunk, pairs, (U, hists)))
-    states = n + res.counts.get("ds_states", 0)
+    states = n + res.counts.get("ds_states", 0) + res.counts.get("shifted_spans_states", 0) + res.counts.get("shifted_ds_states", 0)
     cov = {
         "states": states,
         "transitions": res.counts.get("transitions", 0),
